@@ -1,7 +1,7 @@
 CHECK = dict(
     level='exploration',
     parts=[dict(name='c12', src=['harness/c12_pack.c'], lib=['pack.c'], workers=16,
-                deadline=dict(quick=240, thorough=1500)),
+                deadline=dict(quick=240, thorough=3600)),
            dict(name='c12asan', src=['harness/c12_pack.c'], lib=['pack.c'], workers=16,
                 cflags=['-fsanitize=address', '-fsanitize-recover=address', '-fno-omit-frame-pointer', '-O1', '-DC12_ASAN'],
                 deadline=dict(quick=240, thorough=900))],
@@ -28,11 +28,11 @@ CHECK = dict(
          '-1/+0/+1}, with real source/destination arrays of up to 65537 bytes that end at an inaccessible page; '
          '(wide) buffer sizes and first advance from {0, 2^e-1, 2^e, 2^e+1 for e=1..30, 2^31-2, 2^31-1} inside a 2 GiB mapping '
          'between inaccessible pages, second advance (NULL destination or NULL source) around 2^8 / 2^16 and landing 3,2,1 short '
-         'of / exactly at / one past the end, then a probe call; memory is watched at both edges of the buffer and around the '
+         'of / exactly at / one past the end, then a probe call or an empty run (so that histories requesting exactly 2^31-1 bytes, e.g. one run of 2^31-1, are included); memory is watched at both edges of the buffer and around the '
          'cursor. Second part (c12asan): seq, runs, reinit and mid again on an AddressSanitizer build of pack.c, the buffer an '
          'exactly-sized accessible region inside a poisoned arena (re-poisoned at every rf_pack_init to the current size), '
          'destination arrays exactly sized; every sanitizer report (suppress_equal_pcs=0) naming a byte of the buffer arena is a '
-         'violation - reads included. evaluations = calls executed and compared that end a new history (depth-first: the leaves). '
+         'violation - reads included. evaluations = calls executed and compared, one per non-empty history in the seq / runs / reinit / mid / wide families (a shared prefix is re-executed and re-compared but counted once), every call of a sweep or src case. '
          'A case is distinct when its observation tuple (family, build, operation, argument / bytes read, NULL flag, run length, '
          'buffer size, region size, placement, initial rf_pack_t, cursor before the call, position relative to the end: fits / '
          'exact fit / first overflow / after overflow) differs; counted with a hash set; the work units of different workers '
@@ -45,10 +45,10 @@ CHECK = dict(
               'placements. runs: sizes 0..36 x 2 placements, all sequences of length <= 3 over 73 actions. src: 17 run lengths x '
               'every position x 256 values x 2 backgrounds x 2 offsets x 2 slacks x 2 placements. reinit: 100 size pairs x 2 '
               'placements x 2 initial rf_pack_t x (1 call, re-init, <= 2 calls). mid: 16 sizes x 2 placements x 75 x 75 x 9 calls. '
-              'wide: 92 sizes x 2 placements x 92 first advances x <= 15 second advances x 2 kinds x 9 probes, total requested '
+              'wide: 92 sizes x 2 placements x 92 first advances x <= 15 second advances x 2 kinds x 10 last calls, total requested '
               'bytes < 2^31. AddressSanitizer part: seq (length <= 4), runs (<= 3), reinit, mid on 1 placement',
         thorough='as quick with: seq length <= 5; the 32-bit sweeps additionally cover all 65536 patterns of every pair of byte lanes '
-                 'on 2 backgrounds; runs length <= 4; reinit additionally with 2 calls before the re-initialisation; wide second '
+                 'on 2 backgrounds; runs length <= 4; reinit additionally with 2 calls before and 1 call after the re-initialisation (zeroed rf_pack_t); wide second '
                  'advance additionally over the whole menu of 92 values'),
     assumptions=[
         'scope: total requested bytes of a history stay below 2^31 (enforced by the generator of the wide family, counted as '
